@@ -37,10 +37,12 @@ type zzNewCh struct {
 	reqs chan *ssh.Request
 }
 
-func (n *zzNewCh) Accept() (ssh.Channel, <-chan *ssh.Request, error) { return &zzChannel{}, n.reqs, nil }
+func (n *zzNewCh) Accept() (ssh.Channel, <-chan *ssh.Request, error) {
+	return &zzChannel{}, n.reqs, nil
+}
 func (n *zzNewCh) Reject(reason ssh.RejectionReason, message string) error { return nil }
-func (n *zzNewCh) ChannelType() string                                  { return n.typ }
-func (n *zzNewCh) ExtraData() []byte                                    { return zzExtra }
+func (n *zzNewCh) ChannelType() string                                     { return n.typ }
+func (n *zzNewCh) ExtraData() []byte                                       { return zzExtra }
 
 var (
 	zzReqType    string
